@@ -25,6 +25,7 @@ import (
 	"strings"
 
 	"elaverif/harness/hx"
+	"elaverif/harness/pctx"
 
 	"github.com/elastos/Elastos.ELA/common"
 	"github.com/elastos/Elastos.ELA/common/config"
@@ -114,6 +115,8 @@ var cfgSeq int
 
 func exec(t []string) string {
 	switch t[0] {
+	case "ctx":
+		return pctx.Exec(t)
 	case "pol":
 		ty, ver := u32(t[1]), u32(t[2])
 		txn, err := transaction.GetTransaction(common2.TxType(ty))
@@ -164,6 +167,8 @@ func exec(t []string) string {
 
 func oracle(t []string, out string) *hx.Violation {
 	switch t[0] {
+	case "ctx":
+		return pctx.Oracle(t, out)
 	case "pol":
 		ty, ver, h, f, r := u32(t[1]), u32(t[2]), u32(t[3]), u32(t[4]), u32(t[5])
 		ps := hx.UnHex(t[6])
@@ -236,6 +241,8 @@ func prefixMixes() []string {
 }
 
 func gen(g *hx.Gen) {
+	pctx.Gen(g) // the real ContextCheck on an in-process node
+	pctx.Close()
 	types := buildable()
 	mixes := prefixMixes()
 	vers := []int{0, 1, 2, 3, 4, 255}
@@ -380,6 +387,13 @@ func nontrivial(t []string, out string) bool {
 }
 
 func bucket(t []string, out string) string {
+	if t[0] == "ctx" {
+		f := strings.Fields(out)
+		if len(f) >= 2 {
+			return "ctx/" + f[0] + " " + f[1]
+		}
+		return "ctx/" + out
+	}
 	if t[0] == "pol" {
 		return "pol/" + out
 	}
